@@ -7,7 +7,8 @@ CLASS_LAYER = [PA + 'Pauli.__matmul__#Pauli', PA + 'Pauli.__neg__', PA + 'Pauli.
                PA + 'PauliList.rotate_by#nomask', PA + 'PauliList.transform_by#nomask', ST + 'CliffordMap.copy', ST + 'CliffordMap.compose',
                ST + 'CliffordMap.to_state#r', ST + 'CliffordMap.to_state#none', ST + 'StabilizerState.copy', ST + 'StabilizerState.to_map',
                ST + 'StabilizerState.expect#list', ST + 'identity_map', ST + 'StabilizerState.measure#list', ST + 'StabilizerState.postselect',
-               ST + 'StabilizerState.expect#state', 'pyclifford/circuit.py::MeasureLayer.forward']
+               ST + 'StabilizerState.expect#state', 'pyclifford/circuit.py::MeasureLayer.forward', PA + 'PauliList.__neg__'] + \
+              [PA + '%s.__rmul__#%s' % (c, t) for c in ('Pauli', 'PauliList') for t in ('1', 'i', 'm1', 'mi')]
 
 # every kernel that currently has a discharged contract (their frame.* obligations are the C17 frame conditions)
 MEASURE_LEMMAS = ['acq_diff2', 'onsite_flat', 'acq_bilinear', 'acq_antisym', 'ipow_parity', 'ordg_bits', 'acq_zero', 'ordg_acq', 'selacq_gram', 'acqsum_ext',
@@ -160,7 +161,8 @@ def C19(run):
 
 
 def C20(run):
-    run.deductive(keys=[U + 'pauli_tokenize'], lemmas=[])
+    run.deductive(keys=[U + 'pauli_tokenize', PA + 'Pauli.__neg__', PA + 'PauliList.__neg__'] +
+                  [PA + '%s.__rmul__#%s' % (c, t) for c in ('Pauli', 'PauliList') for t in ('1', 'i', 'm1', 'mi')], lemmas=[])
     run.bounded_check('c20_formats', _b().c20_formats, Nmax=q(run, 3, 4))
     return 'other', ('deductive (all N, L): pauli_tokenize produces exactly the documented token codes; bounded and exhaustive per N: all '
                      'strings x phases x accepted formats, print/parse and tokenize/parse round trips, indexing, negation, unit multiples')
